@@ -174,6 +174,16 @@ def run(ctx):
             NCCG.do_prot_stat = True
         if on.error or off.error:
             continue
+        # a history: searching for coupled groups once more on the finished molecule (no -d) must leave everything as it is
+        if on.mol.options.display_coupled_residues is False or not getattr(on.mol.options, "display_coupled_residues", False):
+            snap = {c: [(g.label, g.pka_value, [sorted(real_dets(g.determinants[t])) for t in ('sidechain', 'backbone', 'coulomb')]) for g in conf.groups]
+                    for c, conf in on.mol.conformations.items()}
+            on.mol.find_non_covalently_coupled_groups()
+            for c, conf in on.mol.conformations.items():
+                for (lab, pk, dets), g in zip(snap[c], conf.groups):
+                    if abs(pk - g.pka_value) > 1e-9 or dets != [sorted(real_dets(g.determinants[t])) for t in ('sidechain', 'backbone', 'coulomb')]:
+                        off_bad.append((name, c, ["a second search for coupled groups changed %s: pKa %r -> %r" % (lab, pk, g.pka_value)], text))
+                        break
         coupled = sum(len(g["coupled"]) for c, gs in on.confs.items() if c != "AVR" for g in gs) // 2
         npairs += coupled
         ctx.case(key=(name, hash(text)), nontrivial=coupled > 0)
